@@ -229,6 +229,147 @@ theorem headTns_mainLoop (I : IState) (order : List Nat) (st : SSt) (h : HeadTns
   | nil => exact h
   | cons i is ih => simp only [mainLoop]; exact ih _ (headTns_addCls I _ i st h)
 
+/-! ## keys of the odicts are unique -/
+
+theorem upsert_keys {κ β : Type} [DecidableEq κ] (k : κ) (v : β) (l : List (κ × β)) :
+    (upsert k v l).map (·.1) = if k ∈ l.map (·.1) then l.map (·.1) else l.map (·.1) ++ [k] := by
+  induction l with
+  | nil => simp [upsert]
+  | cons x r ih =>
+    simp only [upsert]
+    split
+    · rename_i heq
+      simp [heq]
+    · rename_i hne
+      simp only [List.map_cons, ih, List.mem_cons]
+      have hne' : ¬ k = x.1 := fun h => hne h.symm
+      by_cases hk : k ∈ r.map (·.1)
+      · simp [hk]
+      · simp [hk, hne']
+
+theorem nodup_append_single {α : Type} (l : List α) (x : α) (h : l.Nodup) (hx : x ∉ l) : (l ++ [x]).Nodup := by
+  rw [List.nodup_append]
+  refine ⟨h, by simp, ?_⟩
+  intro a ha b hb
+  simp only [List.mem_singleton] at hb
+  subst hb
+  intro hab; subst hab; exact hx ha
+
+theorem upsert_keys_nodup {κ β : Type} [DecidableEq κ] (k : κ) (v : β) (l : List (κ × β)) (h : (l.map (·.1)).Nodup) :
+    ((upsert k v l).map (·.1)).Nodup := by
+  rw [upsert_keys]
+  split
+  · exact h
+  · rename_i hk
+    exact nodup_append_single _ _ h hk
+
+theorem modifyInfo_keys (ns : String) (f : SInfo → SInfo) (infos : List (String × SInfo)) :
+    (modifyInfo ns f infos).map (·.1) = if ns ∈ infos.map (·.1) then infos.map (·.1) else infos.map (·.1) ++ [ns] := by
+  induction infos with
+  | nil => simp [modifyInfo]
+  | cons x r ih =>
+    simp only [modifyInfo]
+    split
+    · rename_i heq
+      simp [heq]
+    · rename_i hne
+      simp only [List.map_cons, ih, List.mem_cons]
+      have hne' : ¬ ns = x.1 := fun h => hne h.symm
+      by_cases hk : ns ∈ r.map (·.1)
+      · simp [hk]
+      · simp [hk, hne']
+
+/-- namespaces, and type / element names inside a namespace, are registered once -/
+def KeysNodup (st : SSt) : Prop :=
+  (st.infos.map (·.1)).Nodup ∧ ∀ kv ∈ st.infos, (kv.2.types.map (·.1)).Nodup ∧ (kv.2.elements.map (·.1)).Nodup
+
+theorem keysNodup_modify (ns : String) (f : SInfo → SInfo) (infos : List (String × SInfo))
+    (hf : ∀ old, ((old.types.map (·.1)).Nodup ∧ (old.elements.map (·.1)).Nodup) →
+      (((f old).types.map (·.1)).Nodup ∧ ((f old).elements.map (·.1)).Nodup))
+    (h1 : (infos.map (·.1)).Nodup)
+    (h2 : ∀ kv ∈ infos, (kv.2.types.map (·.1)).Nodup ∧ (kv.2.elements.map (·.1)).Nodup) :
+    ((modifyInfo ns f infos).map (·.1)).Nodup ∧
+    ∀ kv ∈ modifyInfo ns f infos, (kv.2.types.map (·.1)).Nodup ∧ (kv.2.elements.map (·.1)).Nodup := by
+  constructor
+  · rw [modifyInfo_keys]
+    split
+    · exact h1
+    · rename_i hk
+      exact nodup_append_single _ _ h1 hk
+  · intro kv hkv
+    rcases mem_modifyInfo ns f infos kv hkv with h | ⟨_, old, ho, he⟩
+    · exact h2 kv h
+    · rw [he]
+      apply hf
+      rcases ho with rfl | ho
+      · exact ⟨List.nodup_nil, List.nodup_nil⟩
+      · exact h2 _ ho
+
+theorem keysNodup_addType (st : SSt) (c : Cls) (node : TypeDef) (h : KeysNodup st) : KeysNodup (addType st c node) :=
+  keysNodup_modify c.ns _ st.infos (fun old ho => ⟨upsert_keys_nodup _ _ _ ho.1, ho.2⟩) h.1 h.2
+
+theorem keysNodup_addElement (tns : String) (st : SSt) (c : Cls) (node : ElemDecl) (h : KeysNodup st) :
+    KeysNodup (addElement tns st c node) :=
+  keysNodup_modify (c.elemNs tns) _ st.infos (fun old ho => ⟨ho.1, upsert_keys_nodup _ _ _ ho.2⟩) h.1 h.2
+
+theorem keysNodup_fieldsLoop (I : IState) (rec : Nat → SSt → SSt) (hrec : ∀ k st, KeysNodup st → KeysNodup (rec k st))
+    (fs : List Field) (st : SSt) (h : KeysNodup st) : KeysNodup (fieldsLoop I rec fs st) := by
+  induction fs generalizing st with
+  | nil => exact h
+  | cons f fs ih =>
+    simp only [fieldsLoop]
+    split
+    · exact ih st h
+    · exact ih _ (hrec f.ty st h)
+
+theorem keysNodup_addCls (I : IState) (fuel : Nat) : ∀ i st, KeysNodup st → KeysNodup (addCls I fuel i st) := by
+  induction fuel with
+  | zero => intro i st h; exact h
+  | succ fuel ih =>
+    intro i st h
+    simp only [addCls]
+    split
+    · exact h
+    · have h1 : KeysNodup { st with tags := i :: st.tags } := h
+      cases hk : (I.cls i).kind with
+      | builtin => exact h1
+      | simple =>
+        simp only
+        have := keysNodup_addType _ (I.cls i) (nodeOf I (I.cls i)) h1
+        cases he : (I.cls i).ext <;> simpa [KeysNodup, SSt.touchOpt, SSt.touch, he] using this
+      | enum =>
+        simp only
+        exact keysNodup_addType _ (I.cls i) (nodeOf I (I.cls i)) (by simpa [KeysNodup, SSt.touch] using h1)
+      | complex =>
+        simp only
+        have h0 : KeysNodup (({ st with tags := i :: st.tags } : SSt).touchOpt I (I.cls i).ext) := by
+          cases he : (I.cls i).ext <;> simpa [KeysNodup, SSt.touchOpt, SSt.touch, he] using h1
+        have hf := keysNodup_fieldsLoop I (addCls I fuel) ih (I.cls i).fields _ h0
+        generalize fieldsLoop I (addCls I fuel) (I.cls i).fields
+          (({ st with tags := i :: st.tags } : SSt).touchOpt I (I.cls i).ext) = S at hf
+        have h3 := keysNodup_addType { S with trace := S.trace ++ attrTrace I (I.cls i).fields } (I.cls i) (nodeOf I (I.cls i)) hf
+        generalize addType { S with trace := S.trace ++ attrTrace I (I.cls i).fields } (I.cls i) (nodeOf I (I.cls i)) = S3 at h3
+        exact keysNodup_addElement I.tns (S3.touch (I.cls i).ns) (I.cls i) _ h3
+
+theorem keysNodup_mainLoop (I : IState) (order : List Nat) (st : SSt) (h : KeysNodup st) : KeysNodup (mainLoop I order st) := by
+  induction order generalizing st with
+  | nil => exact h
+  | cons i is ih => simp only [mainLoop]; exact ih _ (keysNodup_addCls I _ i st h)
+
+theorem missingLoop_keys_nodup (I : IState) (pairs : List (String × Nat)) (acc : List (String × ElemDecl) × List String)
+    (h : (acc.1.map (·.1)).Nodup) : ((missingLoop I pairs acc).1.map (·.1)).Nodup := by
+  induction pairs generalizing acc with
+  | nil => exact h
+  | cons p ps ih =>
+    obtain ⟨name, i⟩ := p
+    simp only [missingLoop]
+    split
+    · exact ih acc h
+    · rename_i hc
+      apply ih
+      simp only [List.map_append, List.map_cons, List.map_nil]
+      exact nodup_append_single _ _ h (by simpa using hc)
+
 /-! ## from the tables to the schema nodes -/
 
 def projS (s : Schema) : String × List TypeDef × List ElemDecl := (s.tns, s.types, s.elements)
